@@ -27,7 +27,7 @@ RULE = (
 EXHAUSTIVE_PART = "per base configuration: all fault points of the classes body-exception, unserializable, unencodable, k-th filesystem call and LINE failpoints in the loading half and in the save sequence"
 ASSUMPTIONS = ["faults occur only at the enumerated points", "MemoryFS/NativeOSFS subclasses behave like their parents"]
 MONITORS = ["fault_free_control", "body_exception", "unserializable", "unencodable", "fs_call_fault", "line_failpoint", "line_failpoint_loading"]
-REQUIRED = ["body_UnicodeEncodeError", "backup_after_inplace_chart_edit", "body_KeyboardInterrupt", "body_SystemExit", "body_CancelMutation", "body_StopIteration", "body_GeneratorExit",
+REQUIRED = ["stale_backup_of_same_size_present", "output_is_input_under_another_spelling", "body_UnicodeEncodeError", "backup_after_inplace_chart_edit", "body_KeyboardInterrupt", "body_SystemExit", "body_CancelMutation", "body_StopIteration", "body_GeneratorExit",
             "unencodable_utf-8", "unencodable_cp1252", "unencodable_cp932", "unencodable_cp949", "fault_open_w_backup",
             "fault_open_w_output", "fault_write_backup", "fault_write_output", "fault_close", "partial_write",
             "backup_carried_disjunction", "ssc_chart_without_notes", "preexisting_output_file", "surrogate_on_utf8_inplace"]
@@ -53,7 +53,7 @@ def base_configs():
     out = []
     for ext in ("sm", "ssc"):
         for backup in (False, True):
-            for output in (False, True):
+            for output in (False, True, "alias"):
                 for fs_ in ("native", "memory"):
                     for enc in ENCS:
                         for size in (1, 5, 40):
@@ -65,7 +65,8 @@ def cases(ctx):
     configs = base_configs()
     if ctx.tier == "quick":
         # every combination of format x backup x output x filesystem x detected encoding, one size each
-        configs = [c for i, c in enumerate(c for c in configs if c["size"] == 5 or (c["size"] == 1 and c["enc"] == "utf-8"))]
+        configs = [c for c in configs if (c["size"] == 5 and (c["output"] != "alias" or c["enc"] in ("utf-8", "cp1252")))
+                   or (c["size"] == 1 and c["enc"] == "utf-8" and c["output"] != "alias")]
     for i, c in enumerate(configs):
         if ctx.mine(i):
             yield {"base": c, "failpoints": True, "deep": ctx.tier == "thorough"}
@@ -123,12 +124,14 @@ def apply_body(s, op, ext):
         E.apply_real(s, op, [], ext)
 
 
-def enumerate_faults(base, n_props, n_charts, control_trace, line_events, line0_events=0):
+def enumerate_faults(base, n_props, n_charts, control_trace, line_events, line0_events=0, deep=True):
     faults = []
     script = body_script(base["ext"])
     for exc in ("ValueError", "KeyError", "Custom", "StopIteration", "KeyboardInterrupt", "SystemExit", "GeneratorExit", "CancelMutation",
                 "UnicodeEncodeError", "UnicodeDecodeError", "OSError", "AttributeError", "RuntimeError"):
         for p in range(len(script) + 1):
+            if not deep and exc not in ("ValueError", "KeyboardInterrupt", "CancelMutation") and p not in (0, 3, len(script)):
+                continue  # quick tier: every position for three classes, first / middle / last for the others
             faults.append({"class": "body", "exc": exc, "pos": p})
     for kind in ("int", "badreplace", "unencodable"):
         for i in range(n_props + 1):  # position n_props = a newly appended property
@@ -165,12 +168,25 @@ def run(base, fault, want_lines=False):
         world.write("in." + ext, data)
         world.write("bystander.txt", b"do not touch")
         pre_out = fault is not None and (hash(repr(fault)) % 3 == 0)
-        if base["output"] and pre_out:
+        same_size = fault is None or (hash(repr(fault)) % 3 == 1)
+        if base["output"] is True and pre_out:
             world.write("out." + ext, b"#TITLE:old output;\n")
         if base["backup"] and pre_out:
             world.write("in.bak", b"old backup")
+        elif base["backup"] and same_size:
+            # a stale backup from "an earlier run": same byte size as the one about to be written, other content
+            from simfile.sm import SMSimfile
+            from simfile.ssc import SSCSimfile
+
+            fresh = str((SMSimfile if ext == "sm" else SSCSimfile)(string=data.decode(base["enc"]))).encode(base["enc"])
+            stale = fresh.replace(b"#TITLE:", b"#TITLF:", 1)
+            world.write("in.bak", stale)
         inp = world.path("in." + ext)
-        out = world.path("out." + ext) if base["output"] else None
+        if base["output"] == "alias":
+            # the input file under another spelling of its path
+            out = (world.root + "/./in." + ext) if base["fs"] == "memory" else __import__("os").path.join(world.root, ".", "in." + ext)
+        else:
+            out = world.path("out." + ext) if base["output"] else None
         bak = world.path("in.bak") if base["backup"] else None
         tried = [base["enc"]] + [e for e in ENCS if e != base["enc"]]
         before = world.snapshot()
@@ -230,7 +246,8 @@ def run(base, fault, want_lines=False):
         after = world.snapshot()
         return {"before": before, "after": after, "trace": trace, "raised": raised, "thrown": thrown, "snaps": snaps,
                 "thrown_args": thrown_args,
-                "data": data, "in": world.rel(inp), "out": world.rel(out) if out else None, "bak": world.rel(bak) if bak else None,
+                "data": data, "in": world.rel(inp), "out": (world.rel(out) if out and base["output"] is True else None),
+                "bak": world.rel(bak) if bak else None, "same_size_backup": bool(base["backup"] and same_size and not pre_out),
                 "fired": rec.fired, "lines": lines, "lines0": lines0, "world_kind": base["fs"], "enc": base["enc"]}
     finally:
         world.close()
@@ -327,6 +344,9 @@ def check(ctx, case):
             return
         ok = ctl["after"].get(ctl["out"] or ctl["in"]) != ctl["before"].get(ctl["out"] or ctl["in"])
         ctx.expect(ok, "control:fault-free-run-wrote-nothing", base=base)
+        if ctl["bak"]:
+            ctx.expect(parses_to(ctl["after"].get(ctl["bak"], b""), ctl["enc"], ctl["world_kind"], ctl["snaps"]["S0"], cls),
+                       "control:backup-does-not-parse-to-the-original", base=base)
         counted = [t for t in ctl["trace"] if t[0] is not None]
         ctx.notes.setdefault("fault_free_trace_sample", [[t[0], t[1], str(t[2])] for t in counted])
         n_lines = len(ctl["lines"] or []) if case.get("failpoints") else 0
@@ -335,7 +355,7 @@ def check(ctx, case):
         n_lines0 = len(ctl["lines0"] or []) if case.get("failpoints") else 0
         # the parse loop repeats the same lines for every parameter: the first events cover every distinct line
         n_lines0 = min(n_lines0, 60 if case.get("deep") else 40)
-        faults = enumerate_faults(base, ctl["snaps"]["n_props"], ctl["snaps"]["n_charts"], counted, n_lines, n_lines0)
+        faults = enumerate_faults(base, ctl["snaps"]["n_props"], ctl["snaps"]["n_charts"], counted, n_lines, n_lines0, deep=bool(case.get("deep")))
         ctx.features["fault_points_enumerated"] += len(faults)
     for fault in faults:
         one = {"base": base, "only": fault}
@@ -355,6 +375,15 @@ def judge(ctx, base, fault, r, cls, one):
     backup_ok = bool(bak) and after.get(bak) is not None and S0 is not None and \
         parses_to(after[bak], r["enc"], r["world_kind"], S0, cls) and before.get(bak) != after.get(bak)
     fc = fault["class"]
+    if r.get("same_size_backup"):
+        ctx.feat("stale_backup_of_same_size_present")
+        # whenever the run got past the backup step, the backup must be the new one
+        got_past = any(t[1] == "open-w" and not str(t[2]).endswith("in.bak") for t in r["trace"])
+        if got_past and S0 is not None:
+            ctx.expect(parses_to(after.get(bak, b""), r["enc"], r["world_kind"], S0, cls),
+                       f"{fc}:stale-backup-left-in-place", **{"base": base, "fault": fault})
+    if base["output"] == "alias":
+        ctx.feat("output_is_input_under_another_spelling")
     if bak and before.get(bak) != after.get(bak) and S0 is not None and len(S0.charts) > 0:
         ctx.feat("backup_after_inplace_chart_edit")
     detail = {"base": base, "fault": fault, "changed": changed, "raised": repr(r["raised"]), "trace": [[t[0], t[1], str(t[2])] for t in r["trace"] if t[0] is not None]}
